@@ -67,6 +67,9 @@ fn test(c: &Case, st: &mut Stats) -> TestResult {
     if msg.class() != MessageClass::Request {
         return Ok(());
     }
+    if bytes.len() >= 28 && bytes[bytes.len() - 8..bytes.len() - 4] == [0x80, 0x28, 0x00, 0x04] && !r.attrs.iter().any(|a| a.ty == refstun::T_FP) {
+        st.class("request without FINGERPRINT whose last 8 bytes read like one");
+    }
     let all_types = dedup_keep_order(&r.attrs.iter().map(|a| a.ty).collect::<Vec<_>>());
     // 'exposed' is what the library's own iteration shows (which attributes are visible is C10's business)
     let exposed: Vec<u16> = msg.iter_attributes().take(bytes.len() / 4 + 2).map(|a| a.get_type().value()).collect();
@@ -74,9 +77,78 @@ fn test(c: &Case, st: &mut Stats) -> TestResult {
     supported.extend_from_slice(&c.extra_sup);
     let mut required: Vec<u16> = all_types.iter().enumerate().filter(|(i, _)| c.req_sel >> (i % 64) & 1 == 1).map(|(_, t)| *t).collect();
     required.extend_from_slice(&c.extra_req);
+    // types whose header bytes merely occur INSIDE attribute values (a value that reads like TLVs,
+    // e.g. an encapsulated message) are not present
+    let mut embedded: Vec<u16> = vec![];
+    for a in r.attrs.iter().rev().take(3) {
+        let v = a.value(&bytes);
+        let offs: Vec<usize> = (0..v.len().saturating_sub(3)).step_by(4).collect();
+        for &off in offs.iter().rev().take(3).chain(offs.iter().take(2)) {
+            let t = u16::from_be_bytes([v[off], v[off + 1]]);
+            if !embedded.contains(&t) && !all_types.contains(&t) {
+                embedded.push(t);
+            }
+        }
+    }
+    if !embedded.is_empty() {
+        if (c.req_sel >> 50) & 3 == 3 {
+            required.extend_from_slice(&embedded);
+            st.class("required set includes types that only occur inside attribute values");
+        }
+        if (c.sup_sel >> 50) & 1 == 1 {
+            supported.extend_from_slice(&embedded);
+        }
+    }
+    // single-cause cases (one in four): every exposed comprehension-required type is supported and
+    // every required type is exposed, except for exactly ONE deviation (or none), so that the
+    // verdict rests on that one type alone
+    let single_cause = (c.req_sel >> 52) & 3 == 0;
+    if single_cause {
+        let present = dedup_keep_order(&exposed);
+        supported = present.iter().copied().filter(|t| *t < 0x8000).collect();
+        supported.extend(c.extra_sup.iter().copied());
+        required = present.iter().enumerate().filter(|(i, _)| c.req_sel >> (i % 48) & 1 == 1).map(|(_, t)| *t).collect();
+        let pick = (c.req_sel >> 54) as usize;
+        match (c.sup_sel >> 52) & 3 {
+            0 => {
+                st.class("single cause: nothing to report");
+            }
+            1 => {
+                // one exposed comprehension-required type is not supported
+                let cr: Vec<u16> = present.iter().copied().filter(|t| *t < 0x8000).collect();
+                if !cr.is_empty() {
+                    let drop = cr[pick % cr.len()];
+                    supported.retain(|t| *t != drop);
+                    // its siblings do not stand in for it
+                    supported.push(gen::alias_of(drop, 1 + (pick % 11) as u8));
+                    supported.retain(|t| *t != drop);
+                    st.class("single cause: one unsupported type");
+                }
+            }
+            _ => {
+                // one required type is absent: a tail type, a type that only occurs inside a value,
+                // a hidden attribute's type, a sibling of a present type, a generated one
+                let mut cand: Vec<u16> = embedded.clone();
+                cand.extend_from_slice(&[0x8028, 0x0008, 0x001C]);
+                cand.extend(all_types.iter().copied());
+                cand.extend(present.iter().map(|t| gen::alias_of(*t, 1 + (pick % 11) as u8)));
+                cand.extend(c.extra_req.iter().copied());
+                cand.retain(|t| !present.contains(t));
+                if !cand.is_empty() {
+                    let t = cand[pick % cand.len()];
+                    let at = if required.is_empty() { 0 } else { (pick >> 4) % (required.len() + 1) };
+                    required.insert(at, t);
+                    st.class("single cause: one required type absent");
+                }
+            }
+        }
+    }
     // alias siblings (same low bits, other comprehension bit, ...) of types that are present: a
     // sibling in `supported` does not make the type supported, a required sibling is not present
     for (i, t) in all_types.iter().enumerate() {
+        if single_cause {
+            break;
+        }
         if c.sup_sel >> ((i + 17) % 64) & 1 == 1 && c.sup_sel >> 63 == 1 {
             supported.push(gen::alias_of(*t, 1 + ((c.sup_sel >> 40) % 11) as u8));
         }
